@@ -48,6 +48,19 @@ def truth_of(p, name):
     return None
 
 
+def regex_value(ctx, node, mod, rule, at):
+    """(pattern, flags) of an expression that evaluates to a compiled regex: re.compile(<const>, <flags>) directly, through
+    module constants, or through a straight-line helper that builds the pattern"""
+    from ..core.consts import RegexVal, NotConst
+    try:
+        v = ctx.folder.ev(node, mod)
+    except NotConst as e:
+        raise AnalysisError(rule, at, f"not a constant compiled regex: {e}")
+    if not isinstance(v, RegexVal):
+        raise AnalysisError(rule, at, "not a re.compile(...) value")
+    return v.pattern, v.flags
+
+
 def is_super_call(call, name=None):
     f = call.func
     return isinstance(f, ast.Attribute) and isinstance(f.value, ast.Call) and isinstance(f.value.func, ast.Name) \
